@@ -97,6 +97,16 @@ Proof. exact nan_depth_is_deep. Qed.
 Theorem deep_first_guess_exact : forall w, 0 < w -> omega (first_guess (w, Deep)) Deep = w.
 Proof. exact deep_first_guess_exact. Qed.
 
+(* the direction is reported in (-180, 180] degrees *)
+Theorem peak_direction_range : forall a b, -180 < dir_deg a b <= 180.
+Proof. exact dir_deg_range. Qed.
+
+(* unconditional convergence in deep water: the first guess w^2/g is the root, the loop exits
+   after one step through the tolerance test *)
+Theorem deep_converges : forall ps, all_deep ps ->
+  kinv ps = Converged (map (fun p => fst p * fst p / grav) ps).
+Proof. exact deep_converges. Qed.
+
 (* non-vacuity: a plateau (tie between bins 1 and 3), a NaN bin, and the global maximum 9 outside
    the band [1/4, 2): the peak index is 1, the first in-band maximiser *)
 Example tie_and_band : peak_index (1 / 4) (Some 2) exp_f exp_e = Some 1%nat.
